@@ -345,3 +345,40 @@ B("PINGREQ written on disconnect", ["C15"], [(BASE, "        self.transport.writ
 N("PINGRESP guard with `is not None`", ["C15"],
   [(BASE, "        if self._pingReq.alarm:\n            self._pingReq.alarm.cancel()\n            self._pingReq.alarm = None\n\n\n    # ---------------------------\n    # Protocol API for subclasses",
     "        if self._pingReq.alarm is not None:\n            self._pingReq.alarm.cancel()\n            self._pingReq.alarm = None\n\n\n    # ---------------------------\n    # Protocol API for subclasses")])
+
+# ---------------------------------------------------------------- C11
+B("clean branch skips windowUnsubscribe", ["C11"],
+  [(PS, "            for k in list(self.factory.windowUnsubscribe[self.addr]):\n                request = self.factory.windowUnsubscribe[self.addr][k]\n                del self.factory.windowUnsubscribe[self.addr][k]\n                request.deferred.errback(reason)\n", ""),
+   (PS, "        for window in (self.factory.windowSubscribe[self.addr], self.factory.windowUnsubscribe[self.addr]):", "        for window in (self.factory.windowSubscribe[self.addr],):")],
+  {"C11": ["X-DRAIN"]})
+B("errback(MQTTSessionCleared()) at loss", ["C11"], [(PS, "            self._purgeSession(reason)\n\n__all__", "            self._purgeSession(MQTTSessionCleared())\n\n__all__")], {"C11": ["X-REASON"]})
+B("clean test negated", ["C11"], [(PS, "        # Then, invoke errbacks anyway if we do not persist state\n        if self._cleanStart:", "        # Then, invoke errbacks anyway if we do not persist state\n        if not self._cleanStart:")], {"C11": ["X-DRAIN"]})
+B("queue drain removed (D10a re-introduced)", ["C11"],
+  [(PS, "            queue = self.factory.queuePublishTx[self.addr]\n            while queue:\n                request = queue.popleft()\n                if not request.deferred.called:\n                    request.deferred.errback(reason)\n", "")], {"C11": ["X-DRAIN"]})
+B("queue cleared without failing", ["C11"],
+  [(PS, "            while queue:\n                request = queue.popleft()\n                if not request.deferred.called:\n                    request.deferred.errback(reason)\n", "            queue.clear()\n")], {"C11": ["X-DRAIN", "X-DROP"]})
+B("purge fires without removing", ["C11"],
+  [(PS, "            request = self.factory.windowPubRelease[self.addr][k]\n            del self.factory.windowPubRelease[self.addr][k]\n            request.deferred.errback(reason)", "            request = self.factory.windowPubRelease[self.addr][k]\n            request.deferred.errback(reason)")], {"C11": ["X-DRAIN", "X-FIRE"]})
+N("drain loop over items of a copy", ["C11"],
+  [(PS, "            for k in list(self.factory.windowSubscribe[self.addr]):\n                request = self.factory.windowSubscribe[self.addr][k]\n                del self.factory.windowSubscribe[self.addr][k]\n                request.deferred.errback(reason)",
+    "            for k in tuple(self.factory.windowSubscribe[self.addr]):\n                req = self.factory.windowSubscribe[self.addr][k]\n                del self.factory.windowSubscribe[self.addr][k]\n                req.deferred.errback(reason)")])
+
+# ---------------------------------------------------------------- C12
+B("resume/purge branches swapped", ["C12"],
+  [(PS, "        if self._cleanStart:\n            self._purgeSession(MQTTSessionCleared())\n        else:\n            self._syncSession()", "        if not self._cleanStart:\n            self._purgeSession(MQTTSessionCleared())\n        else:\n            self._syncSession()")],
+  {"C12": ["Y-RESUME", "Y-PURGE"]})
+B("resume over sorted(reverse=True)", ["C12"],
+  [(PS, "        for _, request in self.factory.windowPublish[self.addr].items():\n            if request.alarm is not None:\n                request.alarm.cancel()\n            self._retryPublish(request, dup=True)",
+    "        for _, request in sorted(self.factory.windowPublish[self.addr].items(), reverse=True):\n            if request.alarm is not None:\n                request.alarm.cancel()\n            self._retryPublish(request, dup=True)")], {"C12": ["Y-ORDER"]})
+B("loss path fires regardless of session", ["C12"],
+  [(PS, "        # Then, invoke errbacks anyway if we do not persist state\n        if self._cleanStart:", "        # Then, invoke errbacks anyway if we do not persist state\n        if True:")], {"C12": ["Y-KEEP"]})
+B("resume skips the release window", ["C12"],
+  [(PS, "        for _, reply in self.factory.windowPubRelease[self.addr].items():\n            self._retryRelease(reply, dup=True)\n", "")], {"C12": ["Y-RESUME"]})
+B("purge with the wrong exception", ["C12"], [(PS, "            self._purgeSession(MQTTSessionCleared())\n        else:", "            self._purgeSession(ValueError())\n        else:")], {"C12": ["Y-PURGE"]})
+B("publish refused while connecting", ["C12"],
+  [(PS, "    # The standard allows publishing data without waiting for CONNACK\n    def publish(self, request):\n        return self.protocol.doPublish(request)\n\n# ---------------------------------\n# MQTT Client Connected State Class", "# ---------------------------------\n# MQTT Client Connected State Class"),
+   (PUB, "    # The standard allows publishing data without waiting for CONNACK\n    def publish(self, request):\n        return self.protocol.doPublish(request)\n", "")], {"C12": ["Y-EARLY"]})
+B("window re-sent from setBandwith", ["C12"],
+  [(PS, "        self._bandwith = bandwith\n", "        self._bandwith = bandwith\n        for _, request in self.factory.windowPublish[self.addr].items():\n            self.transport.write(bytes(request.encoded))\n")], {"C12": ["Y-WHO"]})
+N("resume loops over values()", ["C12"],
+  [(PS, "        for _, reply in self.factory.windowPubRelease[self.addr].items():\n            self._retryRelease(reply, dup=True)", "        for reply in self.factory.windowPubRelease[self.addr].values():\n            self._retryRelease(reply, dup=True)")])
